@@ -39,11 +39,29 @@ for line in log:
         if frag in subj:
             jobs.append(("revert:%s %s" % (h, subj[:70]), "revert:" + h, ids))
 report = []
+# resume: entries already in $OUT are kept; CAMPAIGN_ONLY_DETECTING=1 runs, per change, the checks that detected it in the
+# committed report (a miss costs a complete enumeration) - the others keep their recorded verdict
+done = {}
+if os.path.exists(out) and os.environ.get("CAMPAIGN_RESUME"):
+    report = json.load(open(out))["entries"]
+    done = {e["mutant"] for e in report}
+old = {}
+try:
+    for e in json.load(open(os.path.join(VERIF, "mutation_report.json")))["entries"]:
+        old[e["mutant"].split(" ")[0]] = e
+except Exception:
+    pass
 for name, patch, ids in jobs:
     if only and only not in name:
         continue
-    if not ids:
+    if not ids or name in done:
         continue
+    carried = {}
+    if os.environ.get("CAMPAIGN_ONLY_DETECTING") and name.split(" ")[0] in old and old[name.split(" ")[0]].get("checks"):
+        och = old[name.split(" ")[0]]["checks"]
+        keep = [i for i in ids if och.get(i + "/0")]
+        carried = {k: v for k, v in och.items() if k.split("/")[0] not in keep and not v}
+        ids = keep or ids[:1]
     t0 = time.time()
     cmd = [sys.executable, os.path.join(VERIF, "tools", "mutation_run.py")] + (["--tests"] if tests else []) + [patch] + ids
     p = subprocess.run(cmd, capture_output=True, text=True)
@@ -52,7 +70,12 @@ for name, patch, ids in jobs:
         if l.startswith("RESULT "):
             res = json.loads(l[7:])
     viol = [l.strip()[:260] for l in p.stdout.splitlines() if l.strip().startswith("VIOLATION")]
+    if res and carried:
+        res["checks"].update(carried)
+    if res and res.get("tests_pass") is None and name.split(" ")[0] in old:
+        res["tests_pass"] = old[name.split(" ")[0]].get("tests_pass")
     entry = {"mutant": name, "tests_pass": res and res.get("tests_pass"), "checks": res and res.get("checks"),
+             "carried_over_misses": sorted(carried) if carried else [],
              "first_violations": viol[:6], "wall_s": round(time.time() - t0, 1)}
     report.append(entry)
     print(json.dumps(entry)[:400], flush=True)
